@@ -30,6 +30,15 @@ pub enum Tokenizer {
 }
 
 impl CountVectorizerValidParams {
+    /// Deserialised parameters that were built with a function tokenizer have lost the function:
+    /// refuse to tokenize with the split regex instead.
+    fn validate_tokenizer(&self) -> Result<()> {
+        if self.tokenizer_function.is_none() && self.tokenizer_deserialization_guard {
+            return Err(PreprocessingError::TokenizerNotSet);
+        }
+        Ok(())
+    }
+
     /// Learns a vocabulary from the documents in `x`, according to the specified attributes and maps each
     /// vocabulary entry to an integer value, producing a [CountVectorizer](CountVectorizer).
     ///
@@ -42,6 +51,7 @@ impl CountVectorizerValidParams {
         &self,
         x: &ArrayBase<D, Ix1>,
     ) -> Result<CountVectorizer> {
+        self.validate_tokenizer()?;
         // word, (integer mapping for word, document frequency for word)
         let mut vocabulary: HashMap<String, (usize, usize)> = HashMap::new();
         for string in x.iter().map(|s| transform_string(s.to_string(), self)) {
@@ -78,6 +88,7 @@ impl CountVectorizerValidParams {
         encoding: EncodingRef,
         trap: DecoderTrap,
     ) -> Result<CountVectorizer> {
+        self.validate_tokenizer()?;
         // word, (integer mapping for word, document frequency for word)
         let mut vocabulary: HashMap<String, (usize, usize)> = HashMap::new();
         let documents_count = input.len();
